@@ -34,6 +34,7 @@ import (
 	"net/http/httptest"
 	"net/netip"
 	"slices"
+	"sort"
 	"strings"
 	"sync"
 	"sync/atomic"
@@ -521,6 +522,26 @@ type zzC03Conc struct {
 	// <-> another letter case): used to post the same lists respelled.
 	flipIDs bool
 	rng     *rand.Rand
+
+	// cidrMode says how the host bits of a CIDR entry are written: 0 zero
+	// ("10.0.0.0/8"), 1 arbitrary ("10.3.7.9/8"), 2 aligned: the address of a
+	// narrower entry of the same lists that the network contains
+	// ("10.0.0.0/24" and "10.0.0.0/8" share their base address).
+	cidrMode int
+	// order is the order in which a list (a set, for the spec) is written:
+	// 0 as enumerated, 1 narrow networks first, 2 wide networks first,
+	// 3 shuffled.  It is fixed per concretisation so that the same lists can be
+	// given again in the same order.
+	order     int
+	orderSeed uint64
+	// twice writes one network of each list a second time with other host
+	// bits (two strings, one network).
+	twice bool
+	// ctx are the entries of the lists being rendered (for cidrMode 2),
+	// backE / backP map the strings of the last rendering to their entries.
+	ctx   []zzC03Entry
+	backE map[string]zzC03Entry
+	backP map[string]zzC03Pat
 }
 
 var zzC03Labels = map[string]string{"a": "ads", "b": "beta", "xa": "xads"}
@@ -533,18 +554,33 @@ func zzC03NewConc(rng *rand.Rand, w int, sock bool) (c *zzC03Conc) {
 	c = &zzC03Conc{w: w, rng: rng, labels: zzC03Labels, ids: zzC03IDs}
 	c.lowSeed = rng.Uint64()
 	c.zone = []string{"eth0", "lo", "7", "wlan0"}[rng.Intn(4)]
-	c.unmaskedCIDR = rng.Intn(2) == 0
+	c.cidrMode = []int{0, 1, 2, 2}[rng.Intn(4)]
+	c.unmaskedCIDR = c.cidrMode == 1
+	c.order, c.orderSeed = rng.Intn(4), rng.Uint64()
+	c.twice = rng.Intn(6) == 0
+
+	// Where the universe sits: anywhere, but the boundary prefix lengths
+	// (/0.. and ../32, ../128) are drawn more often than their share.
+	place := func(total int) (off int) {
+		switch rng.Intn(5) {
+		case 0:
+			return 0
+		case 1:
+			return total - w
+		default:
+			return rng.Intn(total - w + 1)
+		}
+	}
+
 	if sock {
 		c.off4 = 24
 		c.base4 = 127<<24 | 7<<8
 	} else {
-		c.off4 = rng.Intn(32 - w + 1)
+		c.off4 = place(32)
 		c.base4 = rng.Uint32()
-		// Keep away from 0.0.0.0 and the like: nothing below depends on the
-		// class of the address, but netip prints them all the same.
 	}
 
-	c.off6 = rng.Intn(128 - w + 1)
+	c.off6 = place(128)
 	for i := range c.base6 {
 		c.base6[i] = byte(rng.Intn(256))
 	}
@@ -553,7 +589,7 @@ func zzC03NewConc(rng *rand.Rand, w int, sock bool) (c *zzC03Conc) {
 		// Link-local looking base for realism of the zoned form.
 		c.base6[0], c.base6[1] = 0xfe, 0x80
 		if c.off6 < 10 {
-			c.off6 = 10 + rng.Intn(100)
+			c.off6 = 10 + rng.Intn(128-w-10+1)
 		}
 	}
 
@@ -659,8 +695,24 @@ func (c *zzC03Conc) entry(e zzC03Entry) (s string) {
 	}
 
 	fill := make([]byte, 16)
-	if c.unmaskedCIDR {
+	switch {
+	case c.unmaskedCIDR:
 		fill = c.fill(e.Fam, e.Bits, 0x9e3779b97f4a7c15)
+	case c.cidrMode == 2:
+		// Aligned: written with the address of a narrower entry inside it.
+		for _, x := range c.ctx {
+			if x.K == "id" || x.Fam != e.Fam || len(x.Bits) <= len(e.Bits) || !slices.Equal(x.Bits[:len(e.Bits)], e.Bits) {
+				continue
+			}
+
+			if x.K == "ip" {
+				fill = c.addr(x.Fam, x.Bits).AsSlice()
+			} else {
+				fill = zzC03Place(total, off, base, fill, x.Bits)
+			}
+
+			break
+		}
 	}
 
 	b := zzC03Place(total, off, base, fill, e.Bits)
@@ -753,13 +805,67 @@ func zzC03Spell(rng *rand.Rand, s, how string) (t string) {
 
 func (c *zzC03Conc) lists(v *zzC03Vec) (allowed, disallowed, hosts []string) {
 	allowed, disallowed, hosts = []string{}, []string{}, []string{}
-	for _, e := range v.Allowed {
-		allowed = append(allowed, c.entry(e))
+	c.ctx = append(append([]zzC03Entry{}, v.Allowed...), v.Disallowed...)
+	c.backE, c.backP = map[string]zzC03Entry{}, map[string]zzC03Pat{}
+
+	// The lists are sets for the spec; the code reads them in order.  Write
+	// each in the order of this concretisation.
+	ordered := func(src []zzC03Entry) (es []zzC03Entry) {
+		es = append([]zzC03Entry{}, src...)
+		key := func(e zzC03Entry) (k uint64) {
+			switch c.order {
+			case 1, 2:
+				if e.K != "cidr" {
+					return 1000
+				}
+
+				if c.order == 1 {
+					return uint64(200 - len(e.Bits))
+				}
+
+				return uint64(len(e.Bits))
+			case 3:
+				h := c.orderSeed
+				for _, ch := range []byte(zzC03EntryKey(e)) {
+					h = zzC03Mix(h*131 + uint64(ch))
+				}
+
+				return h
+			default:
+				return 0
+			}
+		}
+
+		sort.SliceStable(es, func(i, j int) (less bool) { return key(es[i]) < key(es[j]) })
+
+		return es
 	}
 
-	for _, e := range v.Disallowed {
-		disallowed = append(disallowed, c.entry(e))
+	render := func(src []zzC03Entry) (out []string) {
+		out = []string{}
+		again := c.twice
+		for _, e := range ordered(src) {
+			str := c.entry(e)
+			out = append(out, str)
+			c.backE[str] = e
+			if again && e.K == "cidr" {
+				// The same network once more, written with other host bits.
+				saved, savedU := c.cidrMode, c.unmaskedCIDR
+				c.cidrMode, c.unmaskedCIDR = (saved+1)%2, (saved+1)%2 == 1
+				other := c.entry(e)
+				c.cidrMode, c.unmaskedCIDR = saved, savedU
+				if _, dup := c.backE[other]; !dup {
+					out = append(out, other)
+					c.backE[other] = e
+					again = false
+				}
+			}
+		}
+
+		return out
 	}
+
+	allowed, disallowed = render(v.Allowed), render(v.Disallowed)
 
 	given := v.Given
 	if v.Via == "" {
@@ -775,6 +881,7 @@ func (c *zzC03Conc) lists(v *zzC03Vec) (allowed, disallowed, hosts []string) {
 		}
 
 		hosts = append(hosts, h)
+		c.backP[h] = p
 	}
 
 	return allowed, disallowed, hosts
@@ -1270,6 +1377,23 @@ func (z *zzC03Srv) rngBit() (ok bool) { return zzC03Bit.Add(1)%2 == 0 }
 
 var zzC03Qtypes = []uint16{dns.TypeA, dns.TypeAAAA, dns.TypeTXT, dns.TypeHTTPS, dns.TypeMX}
 
+// zzC03Dup writes one client entry a second time, as a configuration file may
+// (the API refuses duplicates, the file is not validated).
+func zzC03Dup(rng *rand.Rand, cl *[3][]string) {
+	i := rng.Intn(2)
+	if len(cl[i]) == 0 {
+		i = 1 - i
+	}
+
+	if len(cl[i]) == 0 {
+		return
+	}
+
+	x := cl[i][rng.Intn(len(cl[i]))]
+	at := rng.Intn(len(cl[i]) + 1)
+	cl[i] = append(cl[i][:at:at], append([]string{x}, cl[i][at:]...)...)
+}
+
 // zzC03Post is one installation of access lists, as given to the entry point.
 type zzC03Post struct {
 	Via        string   `json:"via"`
@@ -1339,7 +1463,11 @@ func zzC03Install(z *zzC03Srv, c *zzC03Conc, v *zzC03Vec, via string, rng *rand.
 
 	al, dis, hosts := c.lists(v)
 	cl = [3][]string{al, dis, hosts}
-	code, body = z.post(zzC03Post{Via: via, Allowed: al, Disallowed: dis, Hosts: hosts})
+	if via == "load" && rng.Intn(4) == 0 {
+		zzC03Dup(rng, &cl)
+	}
+
+	code, body = z.post(zzC03Post{Via: via, Allowed: cl[0], Disallowed: cl[1], Hosts: cl[2]})
 
 	return cl, hist, code, body
 }
@@ -1501,6 +1629,10 @@ func zzC03Sweep(t testing.TB, z *zzC03Srv, u, v *zzC03Vec, rng *rand.Rand, full 
 		// A server created from a configuration that carries the lists.
 		al, dis, hosts := c.lists(v)
 		cl = [3][]string{al, dis, hosts}
+		if rng.Intn(4) == 0 {
+			zzC03Dup(rng, &cl)
+		}
+
 		z = zzC03NewSrvWith(t, false, &cl)
 		defer func() { _ = z.s.Stop() }()
 	} else {
@@ -2076,8 +2208,31 @@ func zzC03RandLists(rng *rand.Rand, w int) (v *zzC03Vec) {
 			case 0, 1:
 				e = zzC03Entry{K: "ip", Fam: fam, Bits: zzC03RandBits(rng, w), Sp: "lower"}
 			case 2, 3, 4:
-				// Real-looking CIDR mix: every prefix length, short ones too.
+				// Real-looking CIDR mix: every prefix length, short ones too,
+				// the boundary lengths 0 and w more often than their share,
+				// and networks nested in / around one already in the list.
 				e = zzC03Entry{K: "cidr", Fam: fam, Bits: zzC03RandBits(rng, rng.Intn(w+1)), Sp: "lower"}
+				switch rng.Intn(6) {
+				case 0:
+					e.Bits = []int{}
+				case 1:
+					e.Bits = zzC03RandBits(rng, w)
+				case 2, 3, 4:
+					for _, x := range es {
+						if x.K == "id" || len(x.Bits) == 0 {
+							continue
+						}
+
+						e.Fam = x.Fam
+						if rng.Intn(2) == 0 || len(x.Bits) == w {
+							// Wider, around x.
+							e.Bits = append([]int{}, x.Bits[:rng.Intn(len(x.Bits))]...)
+						} else {
+							// Narrower, inside x.
+							e.Bits = append(append([]int{}, x.Bits...), zzC03RandBits(rng, 1+rng.Intn(w-len(x.Bits)))...)
+						}
+					}
+				}
 			default:
 				e = zzC03Entry{K: "id", Bits: []int{}, ID: zzC03BIDs[rng.Intn(len(zzC03BIDs))], Sp: "lower"}
 				if rng.Intn(3) == 0 {
@@ -2167,16 +2322,11 @@ func zzC03ParsePattern(str string) (p zzC03Pat) {
 // a string that was given in the last installation is the abstract entry it
 // was rendered from; any other client string is an unknown entry, any other
 // host string is parsed.
-func zzC03AbsReported(v *zzC03Vec, given, reported [3][]string) (abs map[string]any) {
-	entries := func(src []zzC03Entry, strs, rep []string) (out []zzC03Entry) {
+func zzC03AbsReported(c *zzC03Conc, reported [3][]string) (abs map[string]any) {
+	entries := func(rep []string) (out []zzC03Entry) {
 		out = []zzC03Entry{}
-		back := map[string]zzC03Entry{}
-		for i, e := range src {
-			back[strs[i]] = e
-		}
-
 		for _, r := range rep {
-			if e, ok := back[r]; ok {
+			if e, ok := c.backE[r]; ok {
 				out = append(out, e)
 			} else {
 				out = append(out, zzC03Entry{K: "unknown", Bits: []int{}, ID: r, Sp: "lower"})
@@ -2187,13 +2337,8 @@ func zzC03AbsReported(v *zzC03Vec, given, reported [3][]string) (abs map[string]
 	}
 
 	hosts := []zzC03Pat{}
-	back := map[string]zzC03Pat{}
-	for i, p := range v.Hosts {
-		back[given[2][i]] = p
-	}
-
 	for _, r := range reported[2] {
-		if p, ok := back[r]; ok {
+		if p, ok := c.backP[r]; ok {
 			hosts = append(hosts, p)
 		} else {
 			hosts = append(hosts, zzC03ParsePattern(r))
@@ -2201,8 +2346,8 @@ func zzC03AbsReported(v *zzC03Vec, given, reported [3][]string) (abs map[string]
 	}
 
 	return map[string]any{
-		"allowed":    entries(v.Allowed, given[0], reported[0]),
-		"disallowed": entries(v.Disallowed, given[1], reported[1]),
+		"allowed":    entries(reported[0]),
+		"disallowed": entries(reported[1]),
 		"hosts":      hosts,
 	}
 }
@@ -2381,6 +2526,12 @@ func TestZZVerifC03Trace(t *testing.T) {
 
 		prevV[sock], prevC[sock] = v, c
 		allowed, disallowed, hosts := c.lists(v)
+		if via == "load" && rng.Intn(3) == 0 {
+			cl := [3][]string{allowed, disallowed, hosts}
+			zzC03Dup(rng, &cl)
+			allowed, disallowed = cl[0], cl[1]
+		}
+
 		code, body := z.post(zzC03Post{Via: via, Allowed: allowed, Disallowed: disallowed, Hosts: hosts})
 		if code != http.StatusOK {
 			t.Fatalf("%s %d rejected: %d %s (%v %v %v)", via, si, code, body, allowed, disallowed, hosts)
@@ -2391,7 +2542,7 @@ func TestZZVerifC03Trace(t *testing.T) {
 			t.Fatalf("access list: %v", err)
 		}
 
-		absRep := zzC03AbsReported(v, [3][]string{allowed, disallowed, hosts}, repd)
+		absRep := zzC03AbsReported(c, repd)
 		w.put(map[string]any{
 			"k": via, "lvl": map[bool]string{false: "handler", true: "transport"}[sock],
 			"allowed": v.Allowed, "disallowed": v.Disallowed, "hosts": v.Hosts,
